@@ -25,6 +25,7 @@ TICKS = 1024  # ticks per second
 _real_socket_class = _socket.socket
 _real_monotonic = _time.monotonic
 _RealThread = threading.Thread
+_real_sleep = _time.sleep
 
 _installed = False
 _tls = threading.local()
